@@ -284,7 +284,7 @@ func state(pkg *packages.Package, res *core.Result) {
 	}
 	for k := range StateExempt {
 		if !used[k] {
-			res.Brokenf("FACT.state: stale exemption %s", k)
+			res.Stale("FACT.state: stale exemption %s", k)
 		}
 	}
 	res.Floor("factorization_types", 8)
